@@ -3996,8 +3996,34 @@ _R8_FLOORS = {
             'nontrivial': 330000},
     },
     'thorough': {
-        'M': {},
-        'C': {},
+        'M': {
+            'M.incr.find': 450000, 'M.incr.reparse': 150000, 'M.incr.reparse.find': 910000, 'M.incr.start': 6500,
+            'M.incr.step': 70000},
+        'C': {
+            'incr-find:last-of-several-matching-files-paragraphs-under-one-short-name': 54000,
+            'incr-find:none-matches': 170000, 'incr-find:one-paragraph-matches': 140000,
+            'incr-find:resolves-to-files-paragraph-added-behind-license-paragraphs-of-a-files-less-document': 46000,
+            'incr-find:resolves-to-files-paragraph-whose-short-name-a-license-paragraph-carries': 200000,
+            'incr-find:several-paragraphs-match': 130000, 'incr:add-files/first-files-paragraph': 2600,
+            'incr:add-files/first-files-paragraph-behind-license-paragraphs': 4900,
+            'incr:add-files/same-copyright-and-short-name-as-earlier-files-paragraph': 6000,
+            'incr:add-files/short-name-not-in-document': 11000,
+            'incr:add-files/short-name-of-earlier-files-and-license-paragraphs': 12000,
+            'incr:add-files/short-name-of-earlier-files-paragraph': 3300,
+            'incr:add-files/short-name-of-earlier-license-paragraph': 7600,
+            'incr:add-files/short-name-of-license-paragraph-added-before-any-files-paragraph': 7800,
+            'incr:add-license/before-any-files-paragraph': 9100,
+            'incr:add-license/before-any-files-paragraph/short-name-of-earlier-license-paragraph': 4100,
+            'incr:add-license/identical-license-as-earlier-license-paragraph': 6700,
+            'incr:add-license/short-name-not-in-document': 12000,
+            'incr:add-license/short-name-of-earlier-files-and-license-paragraphs': 9600,
+            'incr:add-license/short-name-of-earlier-files-paragraph': 6500,
+            'incr:add-license/short-name-of-earlier-license-paragraph': 7100,
+            'incr:find-on-document-without-files-paragraph': 65000,
+            'incr:first-files-paragraph-added-to-license-only-document': 4900, 'incr:histories': 11000,
+            'incr:reparse-strict': 77000, 'incr:reparse-strict=False': 77000, 'incr:start-empty': 5400,
+            'incr:start-parsed': 6500, 'incr:start-parsed-with-shared-short-name': 3200,
+            'incr:start-parsed-with-strict=False': 1600, 'op:incr-add-files': 34000, 'op:incr-add-license': 35000},
     },
 }
 for _t, _d in _R8_FLOORS.items():
